@@ -118,7 +118,9 @@ PRE = "From DV Require Import Base.Tactics Model.C04.\nFrom G Require Import C04
 
 
 def gen_cases(ctx):
-    return [G.random_config(ctx.rng) + (ctx.rng.randrange(10**6),) for _ in range(ctx.n(230, 3000))]
+    cases = [G.random_config(ctx.rng) + (ctx.rng.randrange(10**6),) for _ in range(ctx.n(230, 3000))]
+    # every generator x mode at its boundaries (a single frame, odd widths): random shapes reach these too rarely
+    return cases + list(G.boundary_configs(ctx.rng, seeds=ctx.n(2, 8)))
 
 
 def correspond(ctx):
